@@ -93,9 +93,13 @@ impl AsyncHookFn {
 pub struct CowStr { _p: () }
 
 // std::collections::VecDeque methods without a vstd spec (A5)
+// reserve / reserve_exact change the capacity only (VecDeque and Vec)
+pub trait VxSeqLike<T>: Sized { spec fn seq(&self) -> Seq<T>; }
+impl<T> VxSeqLike<T> for VecDeque<T> { open spec fn seq(&self) -> Seq<T> { self@ } }
+impl<T> VxSeqLike<T> for Vec<T> { open spec fn seq(&self) -> Seq<T> { self@ } }
 #[verifier::external_body]
-pub fn vx_reserve_exact<T>(v: &mut VecDeque<T>, additional: usize)
-    ensures final(v)@ == old(v)@
+pub fn vx_reserve_exact<T, C: VxSeqLike<T>>(v: &mut C, additional: usize)
+    ensures final(v).seq() == old(v).seq()
 { unimplemented!() }
 
 // the user predicate of Pool::retain (R3): an external FnMut; every call logs the object it saw, the metrics it was
